@@ -133,6 +133,8 @@ def eval_case(case):
     def lim_of(mp):
         return bc.default_limit(case, k) if mp is None else mp
 
+    below_res = [False]   # the traversed range has a feature the code's EPS position resolution cannot see
+
     def tol_eps(limit, nsec, a=0.0, b=1.0):
         """SoC tolerance of the code's EPS semantics between SoC a and b: up to EPS hours unused per
         section boundary, EPS of SoC at the target, and — because positions are only resolved to EPS
@@ -149,7 +151,11 @@ def eval_case(case):
                 slope = max(slope, abs(min(fn(x1), limit) - min(fn(x0), limit)) / (x1 - x0))
         pmin = max(bc.inf_power(fn, brk, lo, hi, limit), 1e-300)
         rel = min(1.0, 2 * slope * eps / pmin)
+        below_res[0] = 2 * slope * eps / pmin >= 1.0
         return 1e-9 + 3 * eps * (1 + rate) * (nsec + 2) + rel * (hi - lo)
+
+    def sfx():
+        return ":curve_feature_below_eps_resolution" if below_res[0] else ""
 
     def nsec(a, b):
         return sum(1 for x in brk if min(a, b) < x < max(a, b))
@@ -201,7 +207,7 @@ def eval_case(case):
                 if ref is not None:
                     stats.append("ode_rk4")
                     if abs(ref - after) > tol:
-                        viol.append(("ode", "C02:%s_differs_from_ode" % ("load" if k == "L" else "unload"),
+                        viol.append(("ode", "C02:%s_differs_from_ode%s" % ("load" if k == "L" else "unload", sfx()),
                                      "soc %r -> %r, RK4 %r (T=%rh, limit %r, tol %.3g)"
                                      % (soc0, after, ref, T1, limit, tol)))
                 else:
@@ -213,7 +219,7 @@ def eval_case(case):
                     dt = (t_need - T1)
                     bad = (dt * rate_end > tol) if reached else (abs(dt) * rate_end > tol)
                     if bad:
-                        viol.append(("ode", "C02:%s_differs_from_ode" % ("load" if k == "L" else "unload"),
+                        viol.append(("ode", "C02:%s_differs_from_ode%s" % ("load" if k == "L" else "unload", sfx()),
                                      "soc %r -> %r needs %rh by quadrature, call had %rh (target %s)"
                                      % (soc0, after, t_need, T1, "reached" if reached else "not reached")))
     elif pat in ("split", "mono_time", "mono_limit"):
